@@ -88,11 +88,11 @@ theorem mirror_at_quiescent_points {x : Inst} (inv : LInv x) (hcb : x.callbacks 
 
 /-- AST facts: `becomeFollower` is called only by `stepDown`, the initial acquisition and an exhausted round (both while
     not leading); `OnDemote` is invoked only by `stepDown`, `Stop` and `StopWithContext`; every demotion cause goes
-    through `stepDown`; a promotion is refused while the instance already leads. -/
+    through `stepDown` (`Start`: the goroutine that steps down when the caller's context ends the run); a promotion is refused while the instance already leads. -/
 theorem shape :
     Gen.becomeFollowerCallers = ["kvElection.Start", "kvElection.attemptAcquireWithRetry", "kvElection.stepDown"] ∧
     Gen.onDemoteCallers = ["kvElection.Stop", "kvElection.StopWithContext", "kvElection.stepDown"] ∧
-    Gen.stepDownCallers = ["disconnectHandler.handleGracePeriodExpired", "kvElection.handleHealthCheckFailure",
+    Gen.stepDownCallers = ["disconnectHandler.handleGracePeriodExpired", "kvElection.Start", "kvElection.handleHealthCheckFailure",
       "kvElection.handleHeartbeatFailure", "kvElection.handleReconnectVerificationFailed", "kvElection.handleValidationFailure",
       "kvElection.handleWatchEvent"] ∧
     Gen.becomeLeaderRefusesWhenLeading = true ∧ Gen.roundChecksLeader = true := by decide
